@@ -149,6 +149,14 @@ CHECKS = {
          "ModelRunner runs on a tagged feature+outline+rule where every callback sets/shadows/deletes attributes and registers cleanups, with every single raising cleanup/callback and pairs; execute_steps restores text/table.",
          "Trusts the reference model and the canonical abstraction (validated by the no-dedup search to depth 3/4); ContextMaskWarning text is not checked; no random tail beyond the depth bound.",
          "DESIGN.md section 5, C13"),
+
+ "C16": ("exploration",
+         "exhaustive enumeration of (text slot x hostile atom) singles and pairs, all 128 userdata switch combinations, and the C01 run space with JUnit reporting on (show_skipped on and off), every report parsed with an independent XML parser (expat) and compared with the model",
+         "Ten text slots (feature/scenario/step names, tag, assertion/exception/hook messages, captured stdout/stderr, log record) x 15 hostile atoms (XML metacharacters, CDATA terminators, C0/C1 controls, ANSI escapes, noncharacters, astral, CR/TAB) as singles on 7 shapes and pairs on a small shape; "
+         "128 combinations of the seven behave.reporter.junit.* switches; the C01 enumeration incl. hook and cleanup faults reported twice (show_skipped on/off). Checked: every TESTS-*.xml is well formed, test cases = the feature's scenarios (rows included, skipped iff shown) with their status class, "
+         "tests/failures/errors/skipped = numbers of entries, every failed/errored scenario has a failure/error entry naming the responsible step or hook, nothing escapes run().",
+         "Trusts expat (xml.dom.minidom) as the well-formedness judge; characters outside the hostile alphabet are not covered; config.base_dir is set to cwd because ModelRunner does not set it.",
+         "DESIGN.md section 5, C16"),
 }
 PENDING_REASON = "check not built yet in this round (planned, see DESIGN.md section 5); nothing is claimed for it so far"
 
